@@ -139,6 +139,12 @@ def build_value(v, stack=None):
             out.append(build_value(x, stack))
         stack.pop()
         return out
+    if "tu" in v:
+        # a tuple is immutable: a cycle can only pass through it to an enclosing list / dict
+        stack.append(None)
+        out = [build_value(x, stack) for x in v["tu"]]
+        stack.pop()
+        return tuple(out)
     if "d" in v:
         out = {}
         stack.append(out)
@@ -147,6 +153,17 @@ def build_value(v, stack=None):
         stack.pop()
         return out
     raise ValueError(v)
+
+
+def norm(v):
+    """tuples convert like lists everywhere in this fragment (same `multi` group): the model sees a list"""
+    if v is None or "t" in v or "ref" in v:
+        return v
+    if "tu" in v:
+        return {"l": [norm(x) for x in v["tu"]]}
+    if "l" in v:
+        return {"l": [norm(x) for x in v["l"]]}
+    return {"d": [[k, norm(x)] for k, x in v["d"]]}
 
 
 def canon(r, classes_py):
@@ -344,6 +361,19 @@ def decl_weight(classes):
     return w
 
 
+def ty_height(t):
+    if t in ("leaf", "none") or "data" in t:
+        return 0
+    for key in ("list", "tuple", "dict"):
+        if key in t:
+            return 1 + ty_height(t[key])
+    return 1 + max(ty_height(a) for a in t["union"])
+
+
+def decl_height(classes):
+    return max([ty_height(t) for c in classes for _, t in c["fields"]] or [0])
+
+
 def cost_bound(classes, value):
     """the polynomial the oracle holds the implementation to: weight · size · (depth+1)²"""
     return decl_weight(classes) * vsize(value) * (vdepth(value) + 1) ** 2
@@ -392,6 +422,36 @@ def modelled(classes, t, v, memo=None):
     return r
 
 
+def _is_seq(x):
+    return x is not None and "l" in x
+
+
+def _pairlike(x):
+    return x is not None and (("l" in x and len(x["l"]) == 2) or ("d" in x and len(x["d"]) == 2))
+
+
+def pair_risk(x, depth=3):
+    """could `dict(x)` / the key-value loop of to_dict read the sequence x (or the first items it falls back to) as
+    key/value pairs?  Those conversions are outside the modelled fragment."""
+    if not _is_seq(x) or depth <= 0:
+        return False
+    items = x["l"]
+    if items and all(_pairlike(w) for w in items):
+        return True
+    return bool(items) and _is_seq(items[0]) and pair_risk(items[0], depth - 1)
+
+
+def dict_candidates(v, depth=3):
+    """the mappings a sequence may stand for where a mapping is expected (first item of first item …)"""
+    if v is None or depth <= 0:
+        return []
+    if "d" in v:
+        return [v]
+    if "l" in v and v["l"]:
+        return dict_candidates(v["l"][0], depth - 1)
+    return []
+
+
 def _modelled(classes, t, v, memo):
     if v is not None and "ref" in v:
         return True
@@ -400,15 +460,16 @@ def _modelled(classes, t, v, memo):
     if "data" in t:
         if v is None or "t" in v:
             return True
-        if "l" in v:
-            return False                      # list → data class: to_dict / unwrap heuristics, not modelled
-        keys = [k for k, _ in v["d"]]
-        if any(not isinstance(k, str) for k in keys) or len(set(keys)) != len(keys):
+        if pair_risk(v):
             return False
         fields = dict((n, ft) for n, ft in classes[t["data"]]["fields"])
-        for k, x in v["d"]:
-            if k in fields and not modelled(classes, fields[k], x, memo):
+        for d in dict_candidates(v):
+            keys = [k for k, _ in d["d"]]
+            if any(not isinstance(k, str) for k in keys) or len(set(keys)) != len(keys):
                 return False
+            for k, x in d["d"]:
+                if k in fields and not modelled(classes, fields[k], x, memo):
+                    return False
         return True
     for key in ("list", "tuple"):
         if key in t:
@@ -423,15 +484,16 @@ def _modelled(classes, t, v, memo):
     if "dict" in t:
         if v is None or "t" in v:
             return True
-        if "l" in v:
+        if pair_risk(v):
             return False
         want = int if t.get("key") == "int" else str
-        keys = [k for k, _ in v["d"]]
-        if any(type(k) is not want for k in keys):
-            return False
-        for _, x in v["d"]:
-            if not modelled(classes, t["dict"], x, memo):
+        for d in dict_candidates(v):
+            keys = [k for k, _ in d["d"]]
+            if any(type(k) is not want for k in keys):
                 return False
+            for _, x in d["d"]:
+                if not modelled(classes, t["dict"], x, memo):
+                    return False
         return True
     for a in t["union"]:
         if not modelled(classes, a, v, memo):
@@ -600,7 +662,15 @@ def canon_unions(classes):
         for key in ("list", "tuple", "dict"):
             if key in t:
                 return dict(t, **{key: go(t[key])})
-        args = [go(a) for a in t["union"]]
+        args, seen_args = [], set()
+        for a in (go(a) for a in t["union"]):
+            # typing drops equal members (equal once nested unions are spelt canonically)
+            js = json.dumps(a, sort_keys=True)
+            if js not in seen_args:
+                seen_args.add(js)
+                args.append(a)
+        if len(args) == 1:
+            return args[0]
         sig = json.dumps(sorted(json.dumps(a, sort_keys=True) for a in args))
         if sig in first:
             return {"union": first[sig]}
@@ -645,9 +715,28 @@ def gen_val(rng, classes, t, budget, p_bad, ctx):
                 ctx["refs"] += 1
                 return {"ref": rng.choice(ds)}
         if budget <= 0:
-            return rng.choice([None, tok(GOOD, rng), {"d": []}])
+            return rng.choice([None, tok(GOOD, rng), {"d": []}, {"l": []}])
         if r > 0.97:
-            return rng.choice([None, tok(GOOD, rng)])
+            return rng.choice([None, tok(GOOD, rng), {"l": []}, {"l": [{"l": []}]}, {"l": [tok(GOOD, rng)]}])
+        if ctx["cyc"] and ctx["refs"] < 1 and r > 0.93:
+            ctx["refs"] += 1
+            return rng.choice(list(self_sequences().values()))
+        if r > 0.90 and not ctx.get("wrapping"):
+            # a single-item (or longer) sequence standing for the mapping: transform_dataclass / to_dict unwrap it
+            ctx["wrapping"] = True
+            kind = rng.choice(["l", "l", "tu"])
+            shape = rng.random()
+            levels = 2 if 0.5 <= shape < 0.75 else 1
+            ctx["stack"].extend(["wrap"] * levels)
+            inner = gen_val(rng, classes, t, budget, p_bad, ctx)
+            more = gen_val(rng, classes, t, 0, p_bad, ctx) if shape >= 0.75 else None
+            del ctx["stack"][-levels:]
+            ctx["wrapping"] = False
+            if shape < 0.5:
+                return {kind: [inner]}
+            if shape < 0.75:
+                return {kind: [{rng.choice(["l", "tu"]): [inner]}]}
+            return {kind: [inner, more]}
         fields = classes[t["data"]]["fields"]
         items = []
         ctx["stack"].append(("data", t["data"]))
@@ -666,7 +755,7 @@ def gen_val(rng, classes, t, budget, p_bad, ctx):
                 return gen_val(rng, classes, t[key], budget, p_bad, ctx) if rng.random() < 0.6 else {"d": []}
             n = rng.choice([0, 1, 1, 2, 2, 3])
             ctx["stack"].append("list")
-            out = {"l": [gen_val(rng, classes, t[key], budget, p_bad, ctx) for _ in range(n)]}
+            out = {("tu" if rng.random() < 0.25 else "l"): [gen_val(rng, classes, t[key], budget, p_bad, ctx) for _ in range(n)]}
             ctx["stack"].pop()
             return out
     if "dict" in t:
@@ -708,6 +797,85 @@ def gen_random_case(rng, cyc=False):
         # the cycle re-enters the same class through the same fields: with unambiguous unions the reading is forced
         case["cyc_forced"] = not decl_ambiguous(classes)
     return case
+
+
+def nested_union_type(n, shape="list", with_none=False):
+    """V(0) = Leaf, V(n) = Union[Leaf, List[V(n-1)]] — a JSON-like type: unions nested through containers, no data class"""
+    t = "leaf"
+    for i in range(n):
+        kind = shape if shape != "mixed" else ("list", "dict", "tuple")[i % 3]
+        inner = {kind: t}
+        args = ["leaf", inner] if i % 2 == 0 else [inner, "leaf"]
+        if with_none:
+            args = ["none"] + args
+        t = {"union": args}
+    return t
+
+
+def nested_union_value(n, shape, leaf):
+    v = leaf
+    for i in range(n):
+        kind = shape if shape != "mixed" else ("list", "dict", "tuple")[i % 3]
+        v = {"d": [["", v]]} if kind == "dict" else ({"tu": [v]} if kind == "tuple" and i % 2 else {"l": [v]})
+    return v
+
+
+def nested_union_case(n, kind, mode=0, shape="list", with_none=False, extra=0, md=None, cyc=False):
+    o = {}
+    if md is not None:
+        o["max_depth"] = md
+    if mode & 1:
+        o["no_data_loss"] = True
+    if mode & 2:
+        o["no_explicit_cast"] = True
+    classes = [{"opts": o, "fields": [["v", nested_union_type(n, shape, with_none)]]}]
+    if cyc:
+        # the innermost container contains itself
+        inner = {"l": [{"ref": 0}]}
+        v = nested_union_value(max(n - 1, 0), shape, inner)
+        return {"classes": classes, "root": 0, "entry": "init", "value": {"d": [["v", v]]}, "cyc": True, "cyc_forced": True,
+                "fam": "nested-union/cyc"}
+    v = nested_union_value(n + extra, shape, {"t": kind})
+    return {"classes": classes, "root": 0, "entry": "init", "value": {"d": [["v", v]]}, "fam": "nested-union/" + shape}
+
+
+def self_sequences():
+    """sequences that contain (only) themselves: x = [x], x = [(x,)], x = [[x]]"""
+    return {
+        "x=[x]": {"l": [{"ref": 0}]},
+        "x=[(x,)]": {"l": [{"tu": [{"ref": 1}]}]},
+        "x=[[x]]": {"l": [{"l": [{"ref": 1}]}]},
+    }
+
+
+def seqcycle_case(pos, seq, md, mode=0, entry="init"):
+    """a cyclic input built from lists / tuples alone, given at position `pos` of a recursive class"""
+    ty, wrap = positions()[pos]
+    o = {}
+    if md is not None:
+        o["max_depth"] = md
+    if mode & 1:
+        o["no_data_loss"] = True
+    if mode & 2:
+        o["no_explicit_cast"] = True
+    classes = [{"opts": o, "fields": [["v", "leaf"], ["nx", ty], ["w", {"list": "leaf"}]]}]
+    v = {"d": [["v", {"t": 0}], ["nx", wrap(self_sequences()[seq])]]}
+    return {"classes": classes, "root": 0, "entry": entry, "value": v, "cyc": True, "cyc_forced": True,
+            "fam": "seqcycle/" + pos}
+
+
+def wrapped_cycle_case(pos, md, tuple_wrap=False, mode=0):
+    """the cycle passes a data class *and* a single-item list / tuple standing for it: d['nx'] = wrap([d])"""
+    ty, wrap = positions()[pos]
+    o = {"max_depth": md}
+    if mode & 1:
+        o["no_data_loss"] = True
+    classes = [{"opts": o, "fields": [["v", "leaf"], ["nx", ty]]}]
+    n = len(_containers_between(wrap))
+    inner = {"tu": [{"ref": n + 1}]} if tuple_wrap else {"l": [{"ref": n + 1}]}
+    v = {"d": [["v", {"t": 0}], ["nx", wrap(inner)]]}
+    return {"classes": classes, "root": 0, "entry": "init", "value": v, "cyc": True, "cyc_forced": not (mode & 1) or True,
+            "fam": "wrappedcycle/" + pos}
 
 
 def exp_case(k, pos="optional", md=None):
@@ -809,6 +977,21 @@ def static_obligations(repo) -> list[str]:
         }.items():
             if _norm(ast.parse(s).body[0].value) not in d:
                 broken.append(f"static: rule.py logical_parse: {what} `{s}` not found")
+    tdc = _find(clsm, "transform_dataclass")
+    if not tdc:
+        broken.append("static: cls.py transform_dataclass not found")
+    else:
+        first = tdc.body[0] if tdc.body else None
+        want = ("if isinstance(data, (list, tuple)) and not transformer.options.no_explicit_cast:\n"
+                "    if data:\n"
+                "        if transformer.options.no_data_loss and len(data) > 1:\n"
+                "            raise TypeError\n"
+                "        data = data[0]\n"
+                "        if type(data) == cls:\n"
+                "            return data")
+        if first is None or _norm(first) != _src(want):
+            broken.append("static: cls.py transform_dataclass: the single-item sequence unwrapping differs from the modelled "
+                          "`if sequence and not no_explicit_cast: if data: (no_data_loss and len > 1 → TypeError); data = data[0]`")
     idc = _find(clsm, "init_dataclass")
     if not idc:
         broken.append("static: cls.py init_dataclass not found")
@@ -829,20 +1012,23 @@ class C18(Check):
     props_modules = ["Utv.Props.C18"]
     driver = "C18"
     impl = "harness.c18:impl"
-    case_timeout = 60.0
+    case_timeout = 15.0
     rule = ("declarations: 1-3 (mutually) recursive Schema classes built from generated source, fields over "
             "leaf | None | data class | List | Tuple[..., ...] | Dict[str|int, ·] | Union, per-class max_depth in {None,1..5}, "
             "no_data_loss / no_explicit_cast / data_first_search; inputs: (a) the position x depth x max_depth matrix "
             "(22 positions incl. list index 0/1/last, dict key ''/'a'/0/1, every union branch, Optional, nested containers), "
             "(b) type-directed random values with invalid / preference-dependent leaves, shape mismatches, unknown keys, "
-            "(c) cyclic inputs, (d) a single invalid leaf below k levels; entry points K(**d), K.__from__, type_transform. "
+            "(c) cyclic inputs — through data-class fields, through single-item lists / tuples standing for a mapping, and built "
+            "from lists / tuples alone (x=[x], x=[(x,)], x=[[x]]) at every position —, (d) a single invalid leaf below k levels, "
+            "(e) JSON-like unions nested through containers without a data class, depth 1..12, valid / lossy / invalid leaf; "
+            "entry points K(**d), K.__from__, type_transform. "
             "Every case runs with the declared limits and with all limits removed.  non-trivial = the input reaches a nested "
             "data class (result or input nesting >= 2) or is cyclic; distinct by (declaration, input, entry)")
     assumptions = [
         "the leaf converter is the harness' counting converter (token classes mod 4); the theorems are for every leaf behaviour",
         "a cyclic Python object is represented in the model by a finite unfolding deeper than any level the limited parser can reach",
-        "outside the modelled fragment (list given to a data class / Dict type, non-string keys given to a data class) cases are "
-        "spec-swept but not compared with the model",
+        "outside the modelled fragment (sequences of key/value pairs given to a data class / Dict type, non-string keys given to "
+        "a data class, K.__from__(sequence)) cases are spec-swept but not compared with the model",
     ]
     budget = {"quick": 1400, "thorough": 30000}
     stats: dict = {}
@@ -858,7 +1044,32 @@ class C18(Check):
             out += [chain_case(p, 1, md, cyc=True) for p in POS_NAMES if p != "wrapped-scalar" for md in (1, 3)]
             out += [exp_case(k) for k in range(1, 8)]
             out += [exp_case(k, "list-opt-0") for k in (2, 4, 6)]
+            # unions nested through containers, no data class in between: depth 2..12
+            out += [nested_union_case(n, kind, mode) for n in (2, 4, 6, 8, 10, 12) for kind in (BAD, LOSSY, CAST, GOOD)
+                    for mode in (0, 1, 2, 3)]
+            out += [nested_union_case(n, BAD, mode, shape) for n in (3, 6, 9, 12) for mode in (0, 1)
+                    for shape in ("dict", "tuple", "mixed")]
+            out += [nested_union_case(n, kind, mode, "list", with_none=True, extra=e) for n in (5, 9) for kind in (BAD, LOSSY)
+                    for mode in (0, 1) for e in (-1, 0, 1)]
+            out += [nested_union_case(n, GOOD, mode, cyc=True) for n in (1, 2, 5, 8, 12) for mode in (0, 1, 2)]
+            # cyclic inputs built from lists / tuples alone, and cycles through single-item sequences
+            out += [seqcycle_case(p, q, None) for p in ("direct", "optional", "list-0", "dict-empty-key")
+                    for q in self_sequences()]
+            out += [seqcycle_case(p, "x=[(x,)]", 2) for p in ("union-mid", "tuple-1", "opt-list-0")]
+            out += [seqcycle_case(p, "x=[x]", 2, mode=m, entry=e) for p in ("direct", "list-1")
+                    for m, e in ((1, "init"), (2, "transform"), (3, "init"))]
+            out += [wrapped_cycle_case(p, md, tw) for p in POS_NAMES for md in (1, 3) for tw in (False, True)]
         elif tier == "thorough":
+            out += [nested_union_case(n, kind, mode, shape) for n in range(1, 13) for kind in (BAD, LOSSY, CAST, GOOD)
+                    for mode in (0, 1, 2, 3) for shape in ("list", "dict", "tuple", "mixed")]
+            out += [nested_union_case(n, kind, mode, "list", with_none=True, extra=e) for n in range(1, 13)
+                    for kind in (BAD, LOSSY) for mode in (0, 1, 2, 3) for e in (-1, 0, 1)]
+            out += [nested_union_case(n, GOOD, mode, cyc=True, md=md) for n in range(1, 13) for mode in (0, 1, 2, 3)
+                    for md in (None, 2)]
+            out += [seqcycle_case(p, q, md, mode=m, entry=e) for p in POS_NAMES for q in self_sequences()
+                    for md in (None, 1, 3) for m in (0, 1, 2, 3) for e in ("init", "transform")]
+            out += [wrapped_cycle_case(p, md, tw, mode=m) for p in POS_NAMES for md in (1, 2, 3, 5) for tw in (False, True)
+                    for m in (0, 1)]
             out += matrix_cases(depths=range(1, 9), mds=(None, 1, 2, 3, 4, 5), kinds=(GOOD, BAD))
             out += matrix_cases(depths=(1, 2, 3, 4), mds=(1, 2, 3), entries=("from", "transform"))
             out += [chain_case(p, k, md, GOOD, "init", mode=m, dfs=d) for p in POS_NAMES for k in (2, 3, 4)
@@ -879,19 +1090,19 @@ class C18(Check):
 
     def model_line(self, case):
         line = {"classes": case["classes"], "root": case["root"], "entry": case.get("entry", "init"),
-                "value": case["value"], "legacy": False}
+                "value": norm(case["value"]), "legacy": False}
         if case.get("cyc"):
             lims = [c.get("opts", {}).get("max_depth") or 0 for c in case["classes"]]
             # one turn of a cycle passes a data-class level (or, read as a plain container, a level of a finite
             # type): the limited parser cannot follow more than max_depth + 1 (+ type height) turns
-            line["value"] = unfold(case["value"], (max(lims) + 3) * 2)
+            line["value"] = unfold(norm(case["value"]), max((max(lims) + 3) * 2, decl_height(case["classes"]) + 3))
             line["skip_unl"] = True
         return line
 
     def in_fragment(self, case):
-        v = case["value"]
-        if case.get("cyc"):
-            v = self.model_line(case)["value"]      # the unfolding the model sees
+        v = self.model_line(case)["value"]          # normalised; for a cyclic input the unfolding the model sees
+        if case.get("entry") == "from" and v is not None and "l" in v:
+            return False        # K.__from__(sequence) skips transform_dataclass: not modelled
         return modelled(case["classes"], {"data": case["root"]}, v)
 
     # ---- model vs implementation ----
@@ -926,11 +1137,14 @@ class C18(Check):
 
     # ---- the property, on what the implementation returned ----
     def spec(self, case, io, mo):
+        if isinstance(io, dict) and ("hang" in io or "crash" in io):
+            what = "does not terminate (killed after %ds)" % int(self.case_timeout) if "hang" in io else "kills the interpreter"
+            if case.get("cyc"):
+                return f"cyclic input not rejected: the parse {what}"
+            return f"cost: the parse {what} on a finite input of size {vsize(norm(case['value']))}"
         if not isinstance(io, dict) or "lim" not in io:
             return f"no verdict from the implementation: {io}"
         classes, lim, unl = case["classes"], io["lim"], io.get("unl")
-        if "hang" in io or "crash" in io:
-            return "parse did not terminate / interpreter died"
         # -- depth limit exact --
         if "ok" in lim and not res_within(classes, lim["ok"]):
             return ("accepted a value whose data-class nesting exceeds max_depth "
@@ -949,11 +1163,19 @@ class C18(Check):
             if "ok" in lim and "ok" in unl and lim["ok"] != unl["ok"] and not decl_ambiguous(classes):
                 return "max_depth changed the result of an accepted value"
         # -- cost bounded --
-        bound = cost_bound(classes, unfold(case["value"], 8) if case.get("cyc") else case["value"])
+        value = norm(case["value"])
+        probe = unfold(value, max(8, decl_height(classes) + 2)) if case.get("cyc") else value
+        if decl_data_under_union(classes):
+            # region of the known finding: a generous polynomial
+            bound, formula = cost_bound(classes, probe), "weight*size*(depth+1)^2"
+        else:
+            # no union restarts its stages below it: the Lean theorem C18_cost_poly_partial gives weight*size for the
+            # unchanged code; the oracle allows twice that
+            bound, formula = 2 * decl_weight(classes) * vsize(probe), "2*weight*size"
         for which, o in (("declared limits", lim), ("limits removed", unl)):
             if o is not None and o.get("cost", 0) > bound:
-                return (f"cost: {o['cost']} leaf conversions ({which}) for an input of size {vsize(case['value'])}, "
-                        f"depth {vdepth(case['value'])} exceeds weight*size*(depth+1)^2 = {bound}")
+                return (f"cost: {o['cost']} leaf conversions ({which}) for an input of size {vsize(probe)}, "
+                        f"depth {vdepth(probe)} exceeds {formula} = {bound}")
         return None
 
     def classify(self, case, io, why):
@@ -980,7 +1202,7 @@ class C18(Check):
         return out
 
     def key(self, case, io):
-        if case.get("cyc") or dict_nesting(case["value"]) >= 2:
+        if case.get("cyc") or dict_nesting(norm(case["value"])) >= 2 or case.get("fam", "").startswith("nested-union"):
             return json.dumps([case["classes"], case["value"], case.get("entry")], sort_keys=True)
         return None
 
